@@ -31,7 +31,9 @@ structure RState where
   deriving DecidableEq, Repr
 
 structure Packet where
-  known : Bool         -- the packet names the stream's sid
+  known : Bool         -- the packet names the stream: its sid AND its sender (the `from` of the
+                       -- carrier stanza) are the stream's — a stream is identified by the session
+                       -- id together with the entity it was opened with
   seq : Nat
   payload : Bytes
   deriving DecidableEq, Repr
@@ -57,6 +59,11 @@ def read (s : RState) (n : Nat) : RState × Bytes := ({ s with buf := s.buf.drop
 
 /-- peer's or local close: later packets find no stream; buffered bytes stay readable -/
 def close (s : RState) : RState := { s with live := false }
+
+/-- a `<close/>` request from the network: it closes the stream iff it names it (sid and sender, as
+for data packets) and the stream is live; otherwise item-not-found and nothing happens -/
+def closeRequest (s : RState) (forStream : Bool) : RState × Reply :=
+  if forStream && s.live then (close s, .ack) else (s, .itemNotFound)
 
 /-- a local `Close` has sent its close request and waits for the answer.  `up`: the routine keeps
 the receiving side up while it waits (`IbbClose.receivesWhileWaiting` of the close routine); then
